@@ -94,7 +94,7 @@ Proof.
   - apply pfx_bind; assumption.
   - apply pfx_state. intros s0. unfold signal. destruct k; split; reflexivity.
   - apply pfx_state. intros s0. unfold context_call. destruct (ctx (ts s0)); [|destruct (cleaning (ts s0))]; split; reflexivity.
-  - apply pfx_state. intros s0. unfold pop_cleanup. destruct (cleanups (ts s0)) as [|[i c] r]; split; reflexivity.
+  - apply pfx_state. intros s0. unfold pop_cleanup. destruct (cleanups (ts s0)) as [|[i c] r]; [|destruct (cleaning (ts s0))]; split; reflexivity.
   - apply pfx_state. intros s0. unfold failOnError. destruct (failed (ts s0)); split; reflexivity.
   - apply pfx_drawBits.
   - apply pfx_group_d; assumption.
